@@ -547,7 +547,7 @@ fn language_connectives(st: &mut Stats) {
     let orderings: [&[(&str, usize)]; 7] = [&[], &[("x", 0)], &[("x", 1)], &[("x", 0), ("z", 3)], &[("z", 4), ("x", 2)], &[("y", 7), ("x", 3), ("z", 5)], &[("z", 1), ("y", 0)]];
     let forms = [
         "x & y", "x and y", "x * y", "x | y", "x or y", "x + y", "x ^ y", "x xor y", "x nor y", "x nand y", "x => y", "x implies y", "x in y", "x <= y", "x <=> y", "x iff y", "x eq y", "-x", "!x", "not x",
-        "if x then y else z", "if z then x else y", "x & !y", "-x => -y", "!x <= !y", "not x in not y", "-x implies -y", "-x ^ -y", "-x <=> -y", "-x & -y", "-x | -y", "-x nor -y", "-x nand -y", "-(x & z) => -(y | z)", "-(x | z) <= -(y & z)", "--x => -y", "false <= x", "x <= false", "true => x", "x => true", "false nor x", "true nand x", "false | x", "true & x", "x ^ true", "x <=> false", "if true then x else y", "if false then x else y", "(x | y) & -(x & y)", "x <=> (y ^ z)", "(x => y) & (y => z) => (x => z)",
+        "if x then y else z", "if z then x else y", "x & !y", "-x => -y", "!x <= !y", "not x in not y", "-x implies -y", "-x ^ -y", "-x <=> -y", "-x & -y", "-x | -y", "-x nor -y", "-x nand -y", "-(x & z) => -(y | z)", "-(x | z) <= -(y & z)", "--x => -y", "false <= x", "x <= false", "true => x", "x => true", "false nor x", "true nand x", "false | x", "true & x", "x ^ true", "x <=> false", "if true then x else y", "if false then x else y", "x nand (y nand z)", "x nor (y nor z)", "x nand y nand z", "x nor y nor z", "(x nand y) nand z", "(x nor y) nor z", "x => (y => z)", "(x => y) => z", "x => y => z", "x <= (y <= z)", "x <= y <= z", "x ^ (y ^ z)", "x <=> (y <=> z)", "x & (y & z)", "x | (y | z)", "x nand (y nor z)", "x nor (y nand z)", "(x | y) & -(x & y)", "x <=> (y ^ z)", "(x => y) & (y => z) => (x => z)",
     ];
     for ord in orderings {
         for text in forms {
